@@ -183,7 +183,7 @@ fn check_outcome(r: R, phase: KeyPhase, before: bool, after: bool) {
     kani::cover!(true, "reach:end");
 }
 
-//@ harness props=C18 tier=thorough level=bounded timeout=2400 bound="expected key phase Zero (states reachable through Application::new + decrypt*), payload 4 bytes, header 4 bytes (contents symbolic)"
+//@ harness props=C18 tier=quick level=bounded timeout=900 bound="expected key phase Zero (states reachable through Application::new + decrypt*), payload 4 bytes, header 4 bytes (contents symbolic)"
 //@ fn path::secret::key::open::Application::decrypt
 //@ fn path::secret::key::open::Application::on_decrypt_success
 //@ fn path::secret::key::open::Application::needs_update
